@@ -940,7 +940,7 @@ func ruleLibParse(c *Ctx, r *R) {
 			site := c.Pos(instrPos(pc))
 			if why := parseInputIsRegexpMatch(c, fn, pc); why != "" {
 				r.ok(key+":grammar", site, why)
-			} else if why, ok := libParseReviewed[ssaFuncName(fn)+":"+name]; ok {
+			} else if why, ok := reviewedLookup(libParseReviewed, ssaFuncName(fn)+":"+name); ok {
 				r.ok("reviewed:"+key, site, why)
 			} else {
 				okGuard, leak := grammarGuarded(c, fn, pc)
@@ -985,6 +985,104 @@ var es5NumericForms = []string{"0", "7", "007", "5.", ".5", "5.5", "5e3", "5E3",
 // call is reachable only when the regexp matched, and that regexp (a constant pattern) rejects every Go-only form.
 func grammarGuarded(c *Ctx, fn *ssa.Function, pc *ssa.Call) (bool, string) {
 	leak := "any of the Go-only forms (no guard at all)"
+	// Guards that reject every Go-only form, each with the edge taken when it accepts the text: a constant regexp
+	// (MatchString) and a predicate of the module over the same text (evaluated on the probes). The call is guarded when
+	// every path from the entry to it takes one of these edges - a single test, or a disjunction of them.
+	type edge struct{ from, to *ssa.BasicBlock }
+	guardEdges := map[edge]bool{}
+	for _, b := range fn.Blocks {
+		iff, ok := b.Instrs[len(b.Instrs)-1].(*ssa.If)
+		if !ok {
+			continue
+		}
+		cond, neg := normBool(iff.Cond)
+		call, ok := cond.(*ssa.Call)
+		if !ok || call.Call.StaticCallee() == nil {
+			continue
+		}
+		yes := b.Succs[0]
+		if neg {
+			yes = b.Succs[1]
+		}
+		callee := call.Call.StaticCallee()
+		switch {
+		case callee.Name() == "MatchString" && len(call.Call.Args) >= 1:
+			g := rootGlobal(call.Call.Args[0], 0)
+			if g == nil {
+				continue
+			}
+			pat, ok := regexpVarPattern(c, g.Object())
+			if !ok {
+				continue
+			}
+			re, err := regexp.Compile(pat)
+			if err != nil {
+				continue
+			}
+			rejects := true
+			for _, probe := range goOnlyNumericForms {
+				if re.MatchString(probe) {
+					rejects = false
+				}
+			}
+			if rejects {
+				guardEdges[edge{b, yes}] = true
+			}
+		case len(callee.Blocks) > 0 && callee.Pkg == fn.Pkg && len(call.Call.Args) == 1 && len(pc.Call.Args) > 0 && sameSSA(call.Call.Args[0], pc.Call.Args[0], 0) && callee.Signature.Results().Len() == 1:
+			if bt, ok := callee.Signature.Results().At(0).Type().Underlying().(*types.Basic); !ok || bt.Kind() != types.Bool {
+				continue
+			}
+			in := newAbsInterp(map[string]absHook{})
+			rejects := true
+			for _, probe := range goOnlyNumericForms {
+				ret, pan, fail := absRun(in, callee, []aval{aStr(probe)})
+				if bv, ok := ret.(aBool); fail != "" || pan != nil || !ok || bool(bv) {
+					rejects = false
+					break
+				}
+			}
+			if rejects {
+				guardEdges[edge{b, yes}] = true
+			}
+		}
+	}
+	if len(guardEdges) > 0 {
+		seen := map[*ssa.BasicBlock]bool{}
+		var reach func(x *ssa.BasicBlock) bool
+		reach = func(x *ssa.BasicBlock) bool {
+			if x == pc.Block() {
+				return true
+			}
+			if seen[x] {
+				return false
+			}
+			seen[x] = true
+			for _, s2 := range x.Succs {
+				if guardEdges[edge{x, s2}] {
+					continue
+				}
+				if reach(s2) {
+					return true
+				}
+			}
+			return false
+		}
+		if !reach(fn.Blocks[0]) {
+			// completeness of a full-match regexp guard is still checked by the loop below when it is the only guard
+			onlyRegexp := true
+			for e := range guardEdges {
+				if iff, ok := e.from.Instrs[len(e.from.Instrs)-1].(*ssa.If); ok {
+					cond, _ := normBool(iff.Cond)
+					if call, ok := cond.(*ssa.Call); ok && call.Call.StaticCallee().Name() != "MatchString" {
+						onlyRegexp = false
+					}
+				}
+			}
+			if !onlyRegexp {
+				return true, ""
+			}
+		}
+	}
 	for _, b := range fn.Blocks {
 		iff, ok := b.Instrs[len(b.Instrs)-1].(*ssa.If)
 		if !ok {
